@@ -96,7 +96,7 @@ def run(ctx):
     wsum["schedules"] += wsum2["schedules"]
     # single calls as scripts: every interleaving of the caller's and the handler's operations, executed on the rpc layer
     from vlib import svcfam
-    sr, sfiles = svcfam.scripts(ctx, deep=not ctx.quick(), drop=True)
+    sr, sfiles = svcfam.scripts(ctx, deep=not ctx.quick(), drop=True, free=True)
     states += sr.distinct
     trans += sr.generated
     ssum = svcfam.run_rpc(ctx, sfiles, 1500 if ctx.quick() else 0)
@@ -111,7 +111,8 @@ def run(ctx):
                                  "caller's outcome = its handler's (result bytes, code and message, non-OK after a panic), messages not "
                                  "received before Response are skipped; scripts in which a proxy cuts the connection at any point of the call: "
                                  "the caller gets a non-OK status (or exactly its handler's outcome if that was returned before the loss), "
-                                 "nothing hangs, and the client completes a call again right afterwards"},
+                                 "nothing hangs, and the client completes a call again right afterwards; scripts in which a second goroutine frees a "
+                                 "streaming call while the first one waits in Response (no panic, no hang, later calls unaffected)"},
         "wake_schedules_replayed": wsum["schedules"],
         "states": states, "transitions": trans, "traces_validated_against_impl": calls, "samples": samples, "events": events,
         "invariants": ["HandlerAtMostOnce", "OkOnlyIfServerSentOk", "StreamPrefix", "AllHandled (at every run end)"],
